@@ -8,6 +8,7 @@ pub mod profiles;
 pub mod shim;
 pub mod sweeps;
 pub mod tlalloc;
+pub mod unittest;
 
 pub fn init() {
     shim::install();
